@@ -29,6 +29,9 @@ type groupCase struct {
 	ByDefault bool `json:"by_default,omitempty"`
 	// Perm, when set, lays logical row r at physical position Perm[r] (instead of Shape)
 	Perm []int `json:"perm,omitempty"`
+	// UpperKey: the (enum) key column k1 is replaced by its built-in ToUpper before grouping: values that
+	// differ only in case become one key
+	UpperKey bool `json:"upper_key,omitempty"`
 }
 
 func c04KeyAlphabet(k model.Kind) []model.Cell {
@@ -272,6 +275,13 @@ func runGroupCase(c groupCase) *core.Failure {
 		return core.Failf("could not build input: %s", in.ErrText)
 	}
 	in.AdoptMeta(c.Frame)
+	if c.UpperKey {
+		qf = qf.Apply(qframe.Instruction{Fn: "ToUpper", DstCol: "k1", SrcCol1: "k1"})
+		in = model.Observe(qf)
+		if in.Err {
+			return core.Failf("ToUpper on the key column failed: %s", in.ErrText)
+		}
+	}
 	before := in.String()
 	by := c.By
 	if len(by) == 0 && c.Op == "distinct" {
@@ -810,6 +820,41 @@ func manyRowsLayerRun(ctx *core.Ctx, op string) {
 	}
 }
 
+// upperKeyLayerRun: grouping by an enum column that went through the built-in ToUpper, for every declared
+// order of {x, X, y} (values that become equal must become ONE key whatever their order in the value table)
+func upperKeyLayerRun(ctx *core.Ctx, op string) {
+	vals := []string{"x", "X", "y"}
+	cells := []model.Cell{model.S("x"), model.S("X"), model.S("y"), model.Null()}
+	forEachPerm(len(vals), func(p []int) {
+		decl := []string{vals[p[0]], vals[p[1]], vals[p[2]]}
+		for n := 1; n <= 4; n++ {
+			forEachSeq(n, len(cells), func(seq []int) {
+				for _, gn := range []bool{false, true} {
+					if !ctx.Mine() {
+						continue
+					}
+					k1 := model.Col{Name: "k1", Kind: model.Enum, EnumVals: decl}
+					for _, v := range seq {
+						k1.Cells = append(k1.Cells, cells[v])
+					}
+					f := model.Frame{N: n, Cols: []model.Col{k1}}
+					for _, vc := range c04ValCols {
+						if op == "distinct" && vc.Name != "vb" {
+							continue
+						}
+						vc.Cells = vc.Cells[:n]
+						f.Cols = append(f.Cols, vc)
+					}
+					c := groupCase{Op: op, Frame: f, Shape: int(ctx.Index() % int64(model.NShapes)), By: []string{"k1"}, GroupNull: gn, UpperKey: true}
+					ctx.Exec(c, func() *core.Failure { return runGroupCase(c) })
+					ctx.Outcome("api/upper-cased-enum-key")
+					ctx.Nontrivial(fmt.Sprintf("upper|%v|%v|%v", decl, seq, gn))
+				}
+			})
+		}
+	})
+}
+
 func init() {
 	common := []string{
 		"layer 1 drives the repository's hash table (internal/grouper) through its Comparable interface with harness-chosen hash values; layer 2 uses the public API with the real runtime hash",
@@ -836,6 +881,7 @@ func init() {
 			bigGroupLayerRun(ctx, "groupby")
 			groupSizeSweepRun(ctx, "groupby")
 			manyRowsLayerRun(ctx, "groupby")
+			upperKeyLayerRun(ctx, "groupby")
 		},
 		Replay: replayGroup,
 	})
@@ -858,6 +904,7 @@ func init() {
 			bigGroupLayerRun(ctx, "distinct")
 			groupSizeSweepRun(ctx, "distinct")
 			manyRowsLayerRun(ctx, "distinct")
+			upperKeyLayerRun(ctx, "distinct")
 		},
 		Replay: replayGroup,
 	})
